@@ -480,7 +480,7 @@ def w_passthrough(unit='out', mode='idle', props=None):
         cnt = s.rd(selfv, '_invoke_counter')
         same_fields = [s.rd(selfv, f) == z3.Select(h0[f], Val.addr(selfv)) for f in ('_active_recording', '_active_recording_parameters', '_playback_recording', '_force_sample',
                                                                                       '_invoke_counter', '_playback_outputs', 'recording_enabled') if f in h0]
-        obl.append(Obl('C09/%s/recorder_state_left_exactly_as_it_was' % U, ('C09', 'C03', 'C04'), s,
+        obl.append(Obl('C09/%s/recorder_state_left_exactly_as_it_was' % U, ('C09', 'C03', 'C04', 'C01'), s,
                        z3.And(cnt == old['counter'], s.g['ddom'][ca] == old['ddom'][ca], s.g['dmap'][ca] == old['dmap'][ca],
                               s.seq(s.rd(selfv, '_playback_outputs')) == old['pbout'], *same_fields), oc))
         if nested:
@@ -695,7 +695,7 @@ def w_op_playback(props=None):
         out = b[0]['outcome']; pbo = [ev for ev in s.events if ev[0] == 'pbout']
         tre = sub(TYP(Val.addr(out[1])), K('TapeRecorderException')) if out[0] == 'raise' else z3.BoolVal(False)
         if out[0] == 'ret':
-            obl.append(Obl('C03/%s/one_operation_entry' % U, 'C03', s, z3.BoolVal(len(pbo) == 1), oc))
+            obl.append(Obl('C03/%s/one_operation_entry' % U, ('C03', 'C01'), s, z3.BoolVal(len(pbo) == 1), oc))
             if len(pbo) == 1:
                 v = s.rd(pbo[0][1], 'value'); al = s.dget(v, S('args'))
                 obl.append(Obl('C03/%s/operation_entry_key' % U, ('C03', 'C01'), s, s.rd(pbo[0][1], 'key') == opk, oc))
@@ -704,7 +704,7 @@ def w_op_playback(props=None):
             obl.append(Obl('C01/%s/returns_body_result' % U, 'C01', s, oc[1] == out[1] if oc[0] == 'return' else z3.BoolVal(False), oc))
         else:
             ordinary = z3.And(is_exc(out[1]), z3.Not(tre))
-            obl.append(Obl('C03/%s/one_operation_entry_for_ordinary_exception' % U, 'C03', s, z3.Implies(ordinary, z3.BoolVal(len(pbo) == 1)), oc))
+            obl.append(Obl('C03/%s/one_operation_entry_for_ordinary_exception' % U, ('C03', 'C01'), s, z3.Implies(ordinary, z3.BoolVal(len(pbo) == 1)), oc))
             obl.append(Obl('C03/%s/no_entry_for_framework_or_interrupt' % U, 'C03', s, z3.Implies(z3.Not(ordinary), z3.BoolVal(len(pbo) == 0)), oc))
             if len(pbo) == 1:
                 v = s.rd(pbo[0][1], 'value'); al = s.dget(v, S('args')); e0 = s.g['seq'][Val.addr(al)][0]
